@@ -32,7 +32,9 @@ class ModelError(Exception):
 
 _BASES = [(6, "A"), (6, "C"), (6, "G"), (6, "T"), (2, "N"), (1, "a"), (1, "c"), (1, "g"), (1, "t"), (1, "n")]
 _NAME_CHARS = "sxAZ09chr.-"          # no white space, no '_' (Genome.from_file ignores names with '_' by default)
-_DESC_WORDS = ["d", "desc", "len=12", "7", "two words", "0 1 2", "x  y"]
+# a description that starts with a TAB is separated from the name by that TAB instead of a space (appended at the end
+# of the list: tapes stored earlier keep their meaning)
+_DESC_WORDS = ["d", "desc", "len=12", "7", "two words", "0 1 2", "x  y", "\tlen=28 x", "\td"]
 
 
 def gen_name(tape, i, used, label="name"):
@@ -106,6 +108,8 @@ def gen_fasta(tape, max_records, max_len, max_width, allow_desc=True, allow_crlf
 # serialisation and the two index computations
 
 def header_line(rec):
+    if rec["desc"] is not None and rec["desc"].startswith("\t"):
+        return ">" + rec["name"] + rec["desc"]
     return ">" + rec["name"] + ("" if rec["desc"] is None else " " + rec["desc"])
 
 
